@@ -323,16 +323,12 @@ theorem execReload_good {bb : Option Name} {sub : Sub} (hsub : GoodSub bb sub) {
     unfold doReload
     cases getO w.objs t with
     | none => rfl
-    | some T => simp only; split <;> rfl
+    | some T => rfl
   have hk : Keeps w.objs (doReload w t).1.objs := by
     unfold doReload
     cases getO w.objs t with
     | none => exact Keeps.refl _
-    | some T =>
-      simp only
-      split
-      · exact Keeps.refl _
-      · exact Keeps.setO _ _
+    | some T => exact Keeps.setO _ _
   cases hcs : (doReload w t).2.1 with
   | nil => simp only [execReload, hcs]; exact ⟨hx.inv, Chain.single (seg_of_recOf true hx), hk⟩
   | cons c cs =>
